@@ -59,6 +59,10 @@ def val(x):
     return 'NOTNUMBER:' + type(x).__name__
 for nm in names:
     target = nm if mode in ('name', 'reloc', 'reload') else os.path.join(arg, nm, 'library.yaml')
+    if mode == 'cwd':
+        # from inside the library's directory, by the bare file name (an explicit path without a directory part)
+        os.chdir(os.path.join(arg, nm))
+        target = 'library.yaml'
     try:
         lib = GroupLibrary.Load(target)
         if mode == 'reload':
@@ -228,6 +232,7 @@ def run(ctx):
     procs = {
         'name': fresh_load(ctx, 'name', '', names),
         'path': fresh_load(ctx, 'path', pkg_data, names),
+        'cwd': fresh_load(ctx, 'cwd', pkg_data, names),
         'reloc': fresh_load(ctx, 'reloc', '', names, {'pgradd_DATA_DIR': reloc}),
         # an empty override is "not set": the bundled directory is used
         'empty': fresh_load(ctx, 'name', '', names, {'pgradd_DATA_DIR': ''}),
